@@ -3,7 +3,8 @@
 COMMON_VERUS = [
     'Verus 0.2026.09.13 and Z3 are sound; vstd specifications of core/std items are correct',
     'the trusted primitive specs listed in trusted_base (assume_specification / external_body) are correct; each is cross-checked by a Kani harness on the real body only for N <= 5',
-    'extraction rewrites R1 (ptr::copy on one array = array_copy_within), R2 (swap_nonoverlapping = array_swap), R3 (nested items hoisted), R4 (debug_assert_eq -> debug_assert ==), R5 (cmp::min -> min_usize) preserve meaning',
+    'extraction rewrites R1 (ptr::copy on one array = array_copy_within), R2 (swap_nonoverlapping = array_swap), R3 (nested items hoisted), R4 (debug_assert_eq -> debug_assert ==), R5 (cmp::min -> min_usize), R6 (trait-impl method emitted as inherent method, Self::Item substituted), R7 (`mut self` receiver -> `let mut this = self`), R8 (array.split_at_mut -> array_split_at_mut) preserve meaning; cfg(feature = "unstable") alternatives are dropped (the stable path is verified)',
+    'a failed FUNCTIONAL Verus obligation that is contradicted by an exhausted native enumeration of the same contract on the real code (capacities 0..5) is reported as a lost proof (undecided), not as a violation (DESIGN.md 11.5)',
     'Verus does not model Drop, ownership transfer through assume_init_read, or unwinding',
 ]
 COMMON_KANI = [
